@@ -41,23 +41,30 @@ for patch in "$here"/mutants/*.patch; do
 done
 # Behaviour-preserving edits (renames, extracted helpers, changed loop forms ... written by independent
 # sub-agents, /verif/benign/<id>/patch.diff): the check must stay silent on every one of them.
-bran=0
-for bd in "$here"/../benign/*/; do
-  [ -e "$bd/patch.diff" ] || continue
-  rm -rf "$tmp/repo"; mkdir -p "$tmp/repo"
-  rsync -a --exclude .git /repo/ "$tmp/repo/"
-  if ! (cd "$tmp/repo" && patch -p1 -s --no-backup-if-mismatch < "$bd/patch.diff" >/dev/null 2>&1); then
-    echo "selftest skip benign $(basename "$bd"): patch does not apply to the current tree"; continue
+# (run in parallel, one scratch copy per edit)
+benign_one() {
+  bd=$1; want=$2; tmp=$3
+  [ -e "$bd/patch.diff" ] || exit 0
+  w="$tmp/b.$(basename "$bd")"; mkdir -p "$w/repo"
+  rsync -a --exclude .git /repo/ "$w/repo/"
+  if ! (cd "$w/repo" && patch -p1 -s --no-backup-if-mismatch < "$bd/patch.diff" >/dev/null 2>&1); then
+    echo "selftest skip benign $(basename "$bd"): patch does not apply to the current tree"; rm -rf "$w"; exit 0
   fi
   props=$want; [ -z "$props" ] && props=$(/verif/bin/sfcheck list | cut -f1)
   for prop in $props; do
-    out=$(/verif/bin/sfcheck -property "$prop" -repo "$tmp/repo" -no-evidence 2>&1); rc=$?
-    bran=$((bran+1))
+    out=$(/verif/bin/sfcheck -property "$prop" -repo "$w/repo" -no-evidence 2>&1); rc=$?
+    echo "BENIGN-RAN"
     if [ $rc -ne 0 ]; then
-      echo "SELFTEST FAIL benign $(basename "$bd") property=$prop: alarm on a behaviour-preserving edit (exit $rc): $(printf '%s' "$out" | grep -m1 'violated\|UNDECIDED' | cut -c1-200)"; fail=1
+      echo "SELFTEST FAIL benign $(basename "$bd") property=$prop: alarm on a behaviour-preserving edit (exit $rc): $(printf '%s' "$out" | grep -m1 'violated\|UNDECIDED' | cut -c1-200)"
     fi
   done
-done
+  rm -rf "$w"
+}
+export -f benign_one
+bout=$(ls -d "$here"/../benign/*/ 2>/dev/null | xargs -P "${SELFTEST_JOBS:-8}" -I{} bash -c 'benign_one "$1" "$2" "$3"' _ {} "$want" "$tmp")
+bran=$(printf '%s\n' "$bout" | grep -c '^BENIGN-RAN$')
+printf '%s\n' "$bout" | grep -v '^BENIGN-RAN$' | grep . || true
+if printf '%s\n' "$bout" | grep -q '^SELFTEST FAIL'; then fail=1; fi
 echo "selftest: $ran mutant checks run, $bran silent-on-benign checks run, failures=$fail"
 [ $fail -eq 0 ] || { echo "VIOLATION property=${want:-SELFTEST} replay=$here/mutants"; exit 1; }
 exit 0
